@@ -182,5 +182,6 @@ theorem Tie_bitmap_Select32R64 (ws sidx ridx : List Nat) (i fuel : Nat)
 example : Gen.Ssa2.bitmap_Select32R64 4 [0x12, 0, 0x100] [1] [0, 2, 2, 3] 1 = some (4, 136) := by decide +kernel
 example : select32R64 [0x12, 0, 0x100] [1] [0, 2, 2, 3] 1 = some (4, 136) := by decide +kernel
 example : Gen.Ssa2.bitmap_Select32R64 4 [0x12, 0, 0x100] [1] [0, 2, 2, 3] 2 = some (136, 192) := by decide +kernel
+example : Gen.Ssa2.bitmap_Select32R64 4 [0x12] [1] [1, 2] 0 = none ∧ select32R64 [0x12] [1] [1, 2] 0 = none := by decide +kernel
 
 end Low
